@@ -819,12 +819,19 @@ Definition readable (r : option (list ref)) : Prop :=
 Definition readable_item (it : item) : Prop :=
   match it with IPCR0Data r1 r256 => readable r1 /\ readable r256 | _ => True end.
 
+(** a TPMEvent that leaves no trace in PCRs and event log: its PCR is neither 0 nor 1
+    (the TPM refuses the first extend) or its data cannot be obtained *)
+Definition traceless (p : Z) (src : BootSim.dsrc ref) : Prop :=
+  ~ (p = 0 \/ p = 1) \/ (forall d msg, src = DS d -> converted d <> Ok msg).
+
 (** a measurement whose extend comes with its log-add: TPMEvent (with a proper
-    event type) or the PCR0_DATA pair; a Panic step does nothing to the TPM, and
-    neither does another TPMInit / InitTPM(_, false) (refused: already initialised) *)
+    event type -- or any type when it leaves no trace) or the PCR0_DATA pair; a Panic
+    step does nothing to the TPM, and neither does another TPMInit / InitTPM(_, false)
+    (refused: already initialised).  So the only TPMEvents outside are those typed
+    EV_NO_ACTION whose extend the TPM ACCEPTS (readable data, PCR 0 or 1). *)
 Definition meas_item (it : item) : Prop :=
   match it with
-  | IEvent _ _ ty _ => ty <> EV_NO_ACTION
+  | IEvent p src ty _ => ty <> EV_NO_ACTION \/ traceless p src
   | IPCR0Data r1 r256 => readable r1 /\ readable r256
   | IPanic => True
   | IInit _ => True
@@ -873,6 +880,33 @@ Proof.
   cbn [fst] in *. exact IH.
 Qed.
 
+(** the TPM refuses an extend into a PCR other than 0 and 1 *)
+Lemma extend_refused_pcr t p a d :
+  wf t -> ~ (p = 0 \/ p = 1) -> is_supported a = true -> snd (step H t (Extend p a d)) <> Ok tt.
+Proof.
+  intros Hw Hp Ha.
+  assert (Hr : 0 <= a < 65536) by (destruct (is_supported_cases a Ha) as [-> | ->]; cbv; split; congruence).
+  pose proof (extend_outcome H t p a d Hw Hr) as O.
+  assert (E : (0 <=? p) && (p <? 2) = false).
+  { destruct (0 <=? p) eqn:A; [|reflexivity]. destruct (p <? 2) eqn:B; [|reflexivity].
+    exfalso. apply Hp. apply Z.leb_le in A. apply Z.ltb_lt in B. lia. }
+  rewrite <- andb_assoc, <- andb_assoc in O. rewrite (andb_assoc (0 <=? p)), E in O.
+  cbn [andb] in O. rewrite andb_false_r in O. destruct O as [e ->]. discriminate.
+Qed.
+
+(** a TPMEvent into such a PCR ends with its first, refused, extend: whatever holds
+    of the TPM and survives a refused command still holds *)
+Lemma event_loop_refused (I : state -> Prop) t p msg ty evd :
+  (forall c, I t -> snd (step H t c) <> Ok tt -> I (fst (step H t c))) ->
+  wf t -> I t -> ~ (p = 0 \/ p = 1) -> I (fst (event_loop t p msg ty evd supported)).
+Proof.
+  intros F Hw HI Hp. cbn [supported BootSim.event_loop].
+  pose proof (extend_refused_pcr t p ALG_SHA1 (H ALG_SHA1 msg) Hw Hp eq_refl) as N.
+  specialize (F (Extend p ALG_SHA1 (H ALG_SHA1 msg)) HI N).
+  destruct (step H t (Extend p ALG_SHA1 (H ALG_SHA1 msg))) as [t1 r1]. cbn [fst snd] in *.
+  destruct r1 as [[]|e| |]; [exfalso; apply N; reflexivity| | |]; cbn [fst]; exact F.
+Qed.
+
 Lemma meas_item_Inv l b t it acts s :
   meas_item it -> compile_item t it = Ok acts -> Inv l b (s_tpm s) ->
   Inv l b (s_tpm (fst (run_acts s acts))).
@@ -889,8 +923,12 @@ Proof.
   - subst wl. inversion Ec; subst acts. apply Reinit.
   - inversion Ec; subst acts. cbn [BootSim.run_acts BootSim.apply_act].
     destruct src as [d| |]; try (cbn [fst]; exact HI).
-    destruct (converted d) as [msg|e| |]; try (cbn [fst]; exact HI).
-    pose proof (event_loop_Inv l b supported (s_tpm s) p msg ty evd HI Hm) as G.
+    destruct (converted d) as [msg|e| |] eqn:Ecv; try (cbn [fst]; exact HI).
+    assert (G : Inv l b (fst (event_loop (s_tpm s) p msg ty evd supported))).
+    { destruct Hm as [Hty|[Hp|Hsrc]].
+      - apply event_loop_Inv; assumption.
+      - apply event_loop_refused; [intros c; apply Inv_fail|destruct HI as (Hw & _); exact Hw|exact HI|exact Hp].
+      - exfalso. exact (Hsrc d msg eq_refl Ecv). }
     destruct (event_loop (s_tpm s) p msg ty evd supported) as [t1 r]. cbn [fst] in G.
     destruct r as [[]|e| |]; cbn [fst add_meas with_tpm s_tpm]; exact G.
   - destruct (pcr0_pair ALG_SHA1 r1) as [x|e| |] eqn:E1; cbn [bind] in Ec; try discriminate.
@@ -1386,8 +1424,12 @@ Proof.
   - inversion Ec; subst acts. apply info_acts_Inv2; [apply log_init_info|exact HI].
   - inversion Ec; subst acts. cbn [BootSim.run_acts BootSim.apply_act].
     destruct src as [d| |]; try (cbn [fst]; exact HI).
-    destruct (converted d) as [msg|e| |]; try (cbn [fst]; exact HI).
-    pose proof (event_loop_Inv2 l supported (s_tpm s) p msg ty evd HI Hm) as G.
+    destruct (converted d) as [msg|e| |] eqn:Ecv; try (cbn [fst]; exact HI).
+    assert (G : Inv2 l (fst (event_loop (s_tpm s) p msg ty evd supported))).
+    { destruct Hm as [Hty|[Hp|Hsrc]].
+      - apply event_loop_Inv2; assumption.
+      - apply event_loop_refused; [intros c; apply Inv2_fail|destruct HI as (Hw & _); exact Hw|exact HI|exact Hp].
+      - exfalso. exact (Hsrc d msg eq_refl Ecv). }
     destruct (event_loop (s_tpm s) p msg ty evd supported) as [t1 r]. cbn [fst] in G.
     destruct r as [[]|e| |]; cbn [fst add_meas with_tpm s_tpm]; exact G.
   - inversion Ec; subst acts. apply info_acts_Inv2; [|exact HI]. repeat constructor. exact Hm.
@@ -1806,9 +1848,9 @@ Definition fl_late_loginit : list (list (BootSim.item (list Z))) :=
 Lemma late_loginit_logged : logged_flow (list Z) lit_bytes toy_hash 3 fl_late_loginit.
 Proof.
   exists [], (IInitTPM 3 false). eexists. split; [reflexivity|]. split; [constructor|]. split; [reflexivity|].
-  apply LB_item; [cbn; unfold EV_NO_ACTION; discriminate|].
+  apply LB_item; [left; unfold EV_NO_ACTION; discriminate|].
   apply LB_item; [exact I|].
-  apply LB_item; [cbn; unfold EV_NO_ACTION; discriminate|].
+  apply LB_item; [left; unfold EV_NO_ACTION; discriminate|].
   apply LB_item; [exact I|].
   apply LB_item; [reflexivity|].
   apply LB_nil.
